@@ -115,7 +115,9 @@ def serve(prop, mod):
         req = json.loads(line)
         if req.get("quit"):
             break
-        ks = known if req.get("use_known", True) else set()
+        # the signature being minimised / replayed must surface as a violation even when it is a listed
+        # known finding; every other listed signature stays classified as known (the violation list is capped)
+        ks = known - set(req.get("unmask", []))
         res = execute_run(mod, req["run"], ks)
         sys.stdout.write(json.dumps(res.summary(with_obs=req.get("with_obs", False))) + "\n")
         sys.stdout.flush()
